@@ -133,6 +133,24 @@ func TestExh_C17(t *testing.T) {
 		single(Peer{Name: "p", Idx: "10", Stall: st})
 		single(Peer{Name: "p", Idx: "10", Mask: 1 << 2, Stall: st})
 	}
+	// many bad peers pending at the same time ahead of good ones: 16, 17, 20, 32 (timeouts
+	// 100 ms) and 64 (50 ms) peers that never register / never answer Configure
+	crowd := func(b, timeoutMs int, stall func(i int) string, goods int) {
+		c := C17Case{Kind: "reg", TimeoutMs: timeoutMs, Events: evs}
+		for i := 0; i < b; i++ {
+			c.Peers = append(c.Peers, Peer{Name: "p", Idx: "10", Stall: stall(i)})
+		}
+		for i := 0; i < goods; i++ {
+			c.Peers = append(c.Peers, good)
+		}
+		run(c)
+	}
+	silent := func(int) string { return stallSilent }
+	crowd(17, 100, silent, 1)
+	crowd(16, 100, func(i int) string { return []string{stallSilent, stallCfgHang}[i%2] }, 2)
+	crowd(20, 100, func(int) string { return stallCfgHang }, 1)
+	crowd(32, 100, func(i int) string { return []string{stallSilent, stallSilent, stallCfgHang, stallLate}[i%4] }, 2)
+	crowd(64, 50, silent, 2)
 	// peers that register several times on one connection: invalid attempts 60 ms apart, then
 	// silence / a disconnect / a valid registration clearly within or clearly after the timeout
 	tries := func(n int) []Reg {
